@@ -618,25 +618,22 @@ func init() {
 		return &Val{T: t, S: r}
 	}
 	models["github.com/puzpuzpuz/xsync/v4.NewCounter"] = func(u *Unit, st *State, x *ast.CallExpr, _ *Val, fn *types.Func) *Val {
-		u.trusted["model: xsync.Counter is an atomic int64"] = true
-		r := u.alloc(st)
-		h := u.heapGet(st, "XC!counter", SInt)
-		u.heapSet(st, "XC!counter", SInt, app("store", h, r, "0"))
-		return &Val{T: u.typeOf(x), S: r}
+		return &Val{T: u.typeOf(x), S: "0"}
 	}
 
-	// xsync.Counter
+	// xsync.Counter: an integer owned by the field that holds it
 	xc := "(*github.com/puzpuzpuz/xsync/v4.Counter)."
+	counterNote := "model: a *xsync.Counter held in a struct field is an atomic int64 owned by that field (never shared between fields)"
 	models[xc+"Value"] = func(u *Unit, st *State, x *ast.CallExpr, recv *Val, fn *types.Func) *Val {
-		u.trusted["model: xsync.Counter is an atomic int64"] = true
-		h := u.heapGet(st, "XC!counter", SInt)
-		return u.fromScalar(st, app("select", h, recv.S), types.Typ[types.Int64])
+		u.trusted[counterNote] = true
+		v := u.atomicMethodRead(st, x)
+		return &Val{T: types.Typ[types.Int64], S: v.S}
 	}
 	counterAdd := func(delta func(u *Unit, st *State, x *ast.CallExpr) string) modelFn {
 		return func(u *Unit, st *State, x *ast.CallExpr, recv *Val, fn *types.Func) *Val {
-			u.trusted["model: xsync.Counter is an atomic int64"] = true
-			h := u.heapGet(st, "XC!counter", SInt)
-			u.heapSet(st, "XC!counter", SInt, app("store", h, recv.S, app("+", app("select", h, recv.S), delta(u, st, x))))
+			u.trusted[counterNote] = true
+			cur := u.atomicMethodRead(st, x)
+			u.atomicMethodWrite(st, x, &Val{T: cur.T, S: app("+", cur.S, delta(u, st, x))})
 			return &Val{}
 		}
 	}
@@ -644,8 +641,8 @@ func init() {
 	models[xc+"Dec"] = counterAdd(func(u *Unit, st *State, x *ast.CallExpr) string { return "(- 1)" })
 	models[xc+"Add"] = counterAdd(func(u *Unit, st *State, x *ast.CallExpr) string { return u.eval(st, x.Args[0]).S })
 	models[xc+"Reset"] = func(u *Unit, st *State, x *ast.CallExpr, recv *Val, fn *types.Func) *Val {
-		h := u.heapGet(st, "XC!counter", SInt)
-		u.heapSet(st, "XC!counter", SInt, app("store", h, recv.S, "0"))
+		cur := u.atomicMethodRead(st, x)
+		u.atomicMethodWrite(st, x, &Val{T: cur.T, S: "0"})
 		return &Val{}
 	}
 
